@@ -11,7 +11,8 @@ Trace == ndJsonDeserialize("trace.ndjson")
 VARIABLE l
 E == Trace[l]
 TInit == l = 0
-TNext == \/ l = 0 /\ l' \in {k \in 1..Len(Trace) : k % ChunkSize = 1 \/ ChunkSize = 1}
+TNext == \/ l = 0 /\ l' \in {-k : k \in {j \in 1..Len(Trace) : j % ChunkSize = 1 \/ ChunkSize = 1}}   \* enter a chunk (no check yet,
+         \/ l < 0 /\ l' = -l                                  \* so that chunk heads are checked by different workers)
          \/ l > 0 /\ l < Len(Trace) /\ l % ChunkSize # 0 /\ l' = l + 1
 TSpec == TInit /\ [][TNext]_l
 
